@@ -1,6 +1,10 @@
 //! C02 — coordinates <-> flat positions.  Exhaustive over shapes and the coordinate box enlarged by one, plus the
 //! robustness streams of FRAMEWORK.md: big shapes (axis lengths 7..17, powers of two up to 1024, element counts beyond
 //! 256 / 1024 / 4096), zero-length axes, the element-type sweep, both receivers, the same call twice.
+//! Part 2 (after the third round of seeded changes): hidden state (colliding shapes / argument lists interleaved, A-B-A
+//! re-runs in `exec`), huge shapes (16 384 .. 140 000 elements, an axis above 65 536), every axis length 1..300 in
+//! leading / inner / trailing position with every flat position, narrowing images `c + 2^8 / 2^16 / 2^32` of
+//! coordinates, positions, ranges and index lists, ranks 6..8.
 use arrharness::*;
 use std::any::{Any, TypeId};
 use std::cell::RefCell;
@@ -115,6 +119,285 @@ fn gen(tier: &str, seed: u64, out: &mut dyn FnMut(String)) {
     }
     gen_ext(tier, &mut rng, out);
     gen_ext_big(tier, &mut rng, out);
+    // ---- robustness streams, part 2
+    gen_high_rank(thorough, out);
+    gen_hidden(thorough, out);
+    gen_narrow(thorough, out);
+    gen_sweep(thorough, out);
+    gen_huge(thorough, &mut rng, out);
+}
+
+// ---------------------------------------------------------------- robustness streams, part 2
+
+/// The models of `slice` (rank >= 2: one list `drop` per copied chunk) and `indices_at` (rank >= 2: one `drop` per row of the
+/// array) are quadratic.  On large arrays only the calls whose predicted model cost is moderate are generated.
+fn slice_affordable(s: &[usize], st: usize, en: usize) -> bool {
+    let n: usize = s.iter().product();
+    if s.len() <= 1 || n <= 5000 || en < st || en > n { return true; }
+    let w = en - st;
+    if w >= s[0] { return true; }
+    let chunks = if w > 1 { w } else { s[1] };
+    chunks.saturating_mul(n) <= 20_000_000
+}
+fn indices_affordable(s: &[usize]) -> bool {
+    let n: usize = s.iter().product();
+    s.len() <= 1 || n <= 5000 || s[0].saturating_mul(n) <= 20_000_000
+}
+
+/// a representative set of calls of EVERY operation on one shape: coordinate vectors with every component in {0, 1, len-1}
+/// (+ the one-off border and a wrong-length vector: failing calls), flat positions around the row size / the middle / the end,
+/// ranges and index lists around 0, 1, shape[0].  `light`: the array is large — no answer that is the whole array.
+fn probe_cases(s: &[usize], light: bool) -> Vec<String> {
+    let a = tag(s);
+    let n: usize = s.iter().product();
+    let mut v = vec![];
+    let comp: Vec<Vec<usize>> = s.iter().map(|&d| { let mut c = vec![0usize, 1, d.saturating_sub(1)]; c.retain(|&x| x < d); c.sort(); c.dedup(); c }).collect();
+    let mut coords: Vec<Vec<usize>> = vec![vec![]];
+    for c in &comp { let mut nx = vec![]; for p in &coords { for &x in c { let mut q = p.clone(); q.push(x); nx.push(q); } } coords = nx; }
+    for (j, c) in coords.iter().enumerate() {
+        let t = show_list(c);
+        v.push(format!("index_at {a} {t}"));
+        v.push(format!("at {a} {t}"));
+        v.push(format!("op_index_coords {a} {t}"));
+        // a failing call between the valid ones: one component pushed to its axis length
+        if !s.is_empty() { let k = j % s.len(); let mut b = c.clone(); b[k] = s[k]; v.push(format!("index_at {a} {}", show_list(&b))); if j % 3 == 0 { v.push(format!("at {a} {}", show_list(&b))); } }
+    }
+    if !s.is_empty() { v.push(format!("index_at {a} {}", show_list(&vec![0; s.len() - 1]))); v.push(format!("index_at {a} {}", show_list(&vec![0; s.len() + 1]))); }
+    let last = s.last().copied().unwrap_or(1);
+    let d0 = s.first().copied().unwrap_or(0);
+    let row = if d0 == 0 { 0 } else { n / d0 };
+    let mut pos = vec![0, 1, 2, last.saturating_sub(1), last, last + 1, row, row + 1, n / 2, n.saturating_sub(2), n.saturating_sub(1), n, n + 1];
+    pos.sort(); pos.dedup();
+    for i in pos { v.push(format!("index_to_coord {a} {i}")); v.push(format!("op_index {a} {i}")); }
+    if !s.is_empty() {
+        let mut ranges = vec![(0, 1), (1, 2), (1, 3), (d0.saturating_sub(1), d0), (2, 1), (n.saturating_sub(1), n), (n, n + 1), (0, 0)];
+        if !light { ranges.extend(vec![(0, d0), (1, d0), (0, n), (0, row), (row, 2 * row)]); }
+        ranges.dedup();
+        for (st, en) in ranges { if slice_affordable(s, st, en) { v.push(format!("slice {a} {st} {en}")); } }
+        let mut lists = vec![vec![0], vec![d0.saturating_sub(1)], vec![0, d0.saturating_sub(1)], vec![d0.saturating_sub(1), 0], vec![d0], vec![0, 1], vec![1, 0, 1], vec![]];
+        if !light { lists.push((0..d0.min(40)).rev().collect()); }
+        if indices_affordable(s) { for l in lists { v.push(format!("indices_at {a} {}", show_list(&l))); } }
+    }
+    v
+}
+
+/// emit the probe sets of the members of a group round-robin (member 0 case 0, member 1 case 0, ..., member 0 case 1, ...):
+/// every call directly follows a call on ANOTHER member, in every cyclic order when `reversed` is run as well
+fn emit_interleaved(group: &[Vec<usize>], out: &mut dyn FnMut(String)) {
+    let sets: Vec<Vec<String>> = group.iter().map(|s| probe_cases(s, s.iter().product::<usize>() > 5000)).collect();
+    let m = sets.iter().map(Vec::len).max().unwrap_or(0);
+    for i in 0..m { for set in &sets { if !set.is_empty() { out(set[i % set.len()].clone()); } } }
+}
+
+/// groups of shapes that collide under a key a cache could plausibly use: the weak polynomial hashes of lib.rs
+/// (multipliers 31 .. 257, any seed), the same hashes started at 0 across RANKS, 8- / 16-bit packed axis lengths, and
+/// fingerprints that ignore the order or the grouping of the axes (sum / product / xor / sorted / unit axes dropped)
+fn c02_collision_groups(thorough: bool) -> Vec<Vec<Vec<usize>>> {
+    let mut g: Vec<Vec<Vec<usize>>> = collision_shape_pairs().into_iter().map(|(a, b)| vec![a, b]).collect();
+    for &m in &[31usize, 33, 37, 131, 257] {
+        g.push(vec![vec![3, 1], vec![1, 1 + 2 * m]]);                    // two steps apart
+        g.push(vec![vec![1, 3], vec![m + 3]]);                           // across ranks (hash seeded with 0)
+        g.push(vec![vec![2, 3], vec![2 * m + 3]]);
+        g.push(vec![vec![1, 2, 3], vec![m + 2, 3], vec![0, 2 + m, 3]]);
+        if thorough { g.push(vec![vec![2, 2, 2, 2], vec![2, 1, 2 + m, 2], vec![1, 2 + m, 2, 2], vec![2, 2, 1, 2 + m]]); }
+    }
+    // packed keys: the axis lengths modulo 2^8 / 2^16 agree
+    g.push(vec![vec![2, 3], vec![2, 259], vec![258, 3]]);
+    g.push(vec![vec![1, 2, 3], vec![1, 258, 3], vec![257, 2, 3], vec![1, 2, 259]]);
+    g.push(vec![vec![5], vec![261], vec![65541]]);
+    g.push(vec![vec![2, 3], vec![2, 65539]]);
+    g.push(vec![vec![3, 2], vec![65539, 2]]);
+    // order- / grouping-blind fingerprints
+    g.push(vec![vec![2, 6], vec![3, 4], vec![4, 3], vec![6, 2], vec![12], vec![1, 12], vec![12, 1], vec![2, 2, 3], vec![2, 3, 2], vec![3, 2, 2]]);
+    g.push(vec![vec![2, 3, 4], vec![4, 3, 2], vec![3, 4, 2], vec![2, 4, 3], vec![24], vec![4, 6], vec![6, 4], vec![3, 3, 3]]);
+    g.push(vec![vec![2, 3], vec![3, 2], vec![6], vec![1, 6], vec![6, 1], vec![1, 2, 3], vec![2, 3, 1], vec![2, 1, 3], vec![1, 5], vec![5, 1], vec![4, 1, 1]]);
+    g.push(vec![vec![5, 7], vec![7, 5], vec![35], vec![6, 6], vec![4, 8], vec![8, 4]]);
+    g.push(vec![vec![16, 17], vec![17, 16], vec![272], vec![2, 136], vec![136, 2], vec![1, 32], vec![32, 1], vec![0, 33], vec![33, 0]]);
+    g
+}
+
+/// hidden state: colliding shapes back to back (both orders, interleaved), and colliding ARGUMENTS on one array
+fn gen_hidden(thorough: bool, out: &mut dyn FnMut(String)) {
+    for g in c02_collision_groups(thorough) {
+        emit_interleaved(&g, out);
+        if g.len() > 2 { let r: Vec<Vec<usize>> = g.iter().rev().cloned().collect(); emit_interleaved(&r, out); }
+    }
+    // argument fingerprints: (a, b) and (a-1, b+m) as coordinates, as a range and as an index list; permutations of a list
+    for &m in &[31usize, 33, 37, 131, 257] {
+        let w = m + 9;
+        for (x, y) in [(1usize, 0usize), (2, 1), (3, 7), (1, 8)] {
+            let (p, q) = (format!("{x},{y}"), format!("{},{}", x - 1, y + m));
+            let a2 = tag(&[4, w]);
+            for op in ["index_at", "at", "op_index_coords"] {
+                for t in [&p, &q, &p] { out(format!("{op} {a2} {t}")); }
+            }
+            for a in [tag(&[w]), tag(&[w, 2]), tag(&[w, 1, 3])] {
+                for t in [&p, &q, &p] { out(format!("indices_at {a} {t}")); }
+                // ranges (x, y+9) and (x-1, y+9+m)
+                let (r1, r2) = ((x, y + 9), (x - 1, y + 9 + m));
+                for (st, en) in [r1, r2, r1] { out(format!("slice {a} {st} {en}")); }
+            }
+            // flat positions i and i + m, i*m
+            for a in [tag(&[4, w]), tag(&[w, 4])] {
+                for i in [x, x + m, x, x * m + y, y * m + x] { out(format!("index_to_coord {a} {i}")); out(format!("op_index {a} {i}")); }
+            }
+        }
+    }
+    for a in [tag(&[5]), tag(&[5, 2]), tag(&[4, 3, 2])] {
+        for p in permutations(4) { out(format!("indices_at {a} {}", show_list(&p))); }
+        for p in permutations(3) { out(format!("indices_at {a} {}", show_list(&p))); out(format!("indices_at {a} {}", show_list(&p.iter().map(|x| x + 1).collect::<Vec<_>>()))); }
+    }
+    for p in permutations(3) {
+        // the same coordinate multiset in every order, in a cube and in a box whose axes differ
+        for a in [tag(&[3, 3, 3]), tag(&[3, 4, 5])] { for op in ["index_at", "at", "op_index_coords"] { out(format!("{op} {a} {}", show_list(&p))); } }
+    }
+}
+
+/// exact values: `c + 2^8`, `c + 2^16`, `c + 2^32`, `c + 3 * 2^32` in place of a valid coordinate / position / range end /
+/// list entry — a range check done on a narrowed value accepts them.  Every failing call is directly followed by the valid one.
+fn gen_narrow(thorough: bool, out: &mut dyn FnMut(String)) {
+    let mut sh = shapes(1, 3, 1, 3);
+    sh.extend(vec![vec![0], vec![2, 0], vec![0, 2], vec![3, 4], vec![5], vec![7, 2], vec![2, 3, 4], vec![2, 2, 2, 2], vec![2, 1, 2, 1, 2], vec![3, 256], vec![300, 2], vec![2, 300], vec![70000], vec![2, 70000]]);
+    if thorough { sh.extend(shapes(4, 4, 1, 2)); sh.extend(vec![vec![4, 4, 4], vec![65537, 2], vec![2, 3, 2, 3, 2, 3]]); }
+    for s in &sh {
+        let a = tag(s);
+        let n: usize = s.iter().product();
+        let coords: Vec<Vec<usize>> = if n == 0 { vec![vec![0; s.len()]] } else if n <= 64 { boxes(s) } else {
+            let comp: Vec<Vec<usize>> = s.iter().map(|&d| { let mut c = vec![0usize, 1, d / 2, d - 1]; c.retain(|&x| x < d); c.sort(); c.dedup(); c }).collect();
+            let mut cs: Vec<Vec<usize>> = vec![vec![]];
+            for c in &comp { let mut nx = vec![]; for p in &cs { for &x in c { let mut q = p.clone(); q.push(x); nx.push(q); } } cs = nx; }
+            cs
+        };
+        for c in &coords {
+            let valid = show_list(c);
+            for k in 0..s.len() {
+                for (j, img) in narrowing_images(c[k]).into_iter().enumerate() {
+                    let mut b = c.clone(); b[k] = img;
+                    let t = show_list(&b);
+                    out(format!("index_at {a} {t}")); out(format!("index_at {a} {valid}"));
+                    out(format!("at {a} {t}"));
+                    if j >= 2 || n <= 12 { out(format!("op_index_coords {a} {t}")); out(format!("at {a} {valid}")); }
+                }
+            }
+            if s.len() > 1 {
+                for j in 0..4 {
+                    let b: Vec<usize> = c.iter().map(|&x| narrowing_images(x)[j]).collect();
+                    let t = show_list(&b);
+                    out(format!("index_at {a} {t}")); out(format!("at {a} {t}")); out(format!("op_index_coords {a} {t}")); out(format!("op_index_coords {a} {valid}"));
+                }
+            }
+        }
+        // flat positions
+        let pos: Vec<usize> = if n <= 64 { (0..n.max(1)).collect() } else { vec![0, 1, s[s.len() - 1], n / 2, n - 1] };
+        for i in pos {
+            for img in narrowing_images(i) {
+                out(format!("index_to_coord {a} {img}")); out(format!("index_to_coord {a} {i}"));
+                out(format!("op_index {a} {img}")); out(format!("op_index {a} {i}"));
+            }
+        }
+        // ranges and index lists
+        if n <= 64 || s == &vec![300, 2] || s == &vec![3, 256] {
+            let d0 = s[0];
+            let ranges: Vec<(usize, usize)> = if n <= 8 { boxes(&[n + 1, n + 1]).into_iter().filter(|r| r[0] <= r[1]).map(|r| (r[0], r[1])).collect() }
+                else { vec![(0, 1), (1, 2), (0, d0), (1, d0), (0, 2), (d0 - 1, d0)] };
+            for (st, en) in ranges {
+                for j in 0..4 {
+                    let (is, ie) = (narrowing_images(st)[j], narrowing_images(en)[j]);
+                    out(format!("slice {a} {st} {ie}")); out(format!("slice {a} {is} {ie}")); out(format!("slice {a} {st} {en}"));
+                    if is <= en { out(format!("slice {a} {is} {en}")); }
+                }
+            }
+            let lists: Vec<Vec<usize>> = if d0 == 0 { vec![vec![0]] } else { vec![vec![0], vec![d0 - 1], vec![0, d0 - 1], vec![d0 - 1, 0, d0 / 2]] };
+            for l in lists {
+                for k in 0..l.len() { for img in narrowing_images(l[k]) {
+                    let mut b = l.clone(); b[k] = img;
+                    out(format!("indices_at {a} {}", show_list(&b))); out(format!("indices_at {a} {}", show_list(&l)));
+                } }
+            }
+        }
+    }
+}
+
+/// exact lengths: EVERY axis length 1..=300 in the trailing, an inner and the leading position, with every flat position
+/// (a division replaced by a multiplication with a float reciprocal is first wrong at length 49) and every in-range
+/// coordinate vector of the 2-D shapes; thorough: lengths up to 1000 and longer leading axes (more multiples of the length)
+fn gen_sweep(thorough: bool, out: &mut dyn FnMut(String)) {
+    let mut flat_all = |s: &[usize], coords: bool| {
+        let a = tag(s);
+        let n: usize = s.iter().product();
+        for i in 0..n + 2 { out(format!("index_to_coord {a} {i}")); }
+        if coords {
+            for c in boxes(s) { out(format!("index_at {a} {}", show_list(&c))); }
+            for k in 0..s.len() { let mut b: Vec<usize> = s.iter().map(|d| d - 1).collect(); b[k] = s[k]; out(format!("index_at {a} {}", show_list(&b))); }
+            out(format!("at {a} {}", show_list(&s.iter().map(|d| d - 1).collect::<Vec<_>>())));
+            out(format!("op_index {a} {}", n - 1));
+        }
+    };
+    for d in 1..=300usize {
+        flat_all(&[2, d], true);
+        flat_all(&[3, d, 2], false);
+        flat_all(&[d, 2], true);
+        if thorough { flat_all(&[5, d], true); flat_all(&[2, 2, d], false); flat_all(&[2, d, 3, 1], false); }
+    }
+    // counts exactly 31, 37, 1000, 1001 and primes above 17 in every position of rank 3 / as the whole array
+    for d in [19usize, 23, 29, 31, 37, 41, 43, 47, 49, 53, 59, 61, 97, 98, 101, 103, 107, 127, 131, 161, 187, 196, 197, 211, 251, 256, 257] {
+        flat_all(&[d], true); flat_all(&[2, 3, d], d <= 61); flat_all(&[d, 3, 2], d <= 61);
+        if thorough || d <= 61 { flat_all(&[7, d], false); }
+    }
+    for d in [1000usize, 1001, 1021, 1024] { flat_all(&[d], true); flat_all(&[2, d], false); flat_all(&[d, 2], false); }
+    if thorough {
+        for d in 301..=1000usize { flat_all(&[2, d], false); }
+        for d in (1001..=5000usize).step_by(7) { flat_all(&[2, d], false); }
+    }
+}
+
+/// ranks 6..8 (the exhaustive scope stops at rank 5)
+fn gen_high_rank(thorough: bool, out: &mut dyn FnMut(String)) {
+    let mut v = vec![vec![2; 6], vec![1, 2, 1, 2, 1, 2, 1], vec![2, 1, 1, 1, 1, 1, 1, 2], vec![1; 8], vec![1, 1, 2, 0, 1, 2]];
+    if thorough { v.extend(vec![vec![2; 7], vec![1, 2, 2, 1, 2, 2, 1, 2]]); }
+    for s in &v { emit_full_box(s, out); }
+    let mut b = vec![vec![2; 7], vec![2; 8], vec![3, 2, 2, 2, 2, 3], vec![1, 2, 1, 3, 1, 2, 1, 2], vec![2, 3, 1, 2, 3, 1, 2], vec![3, 1, 2, 2, 1, 2, 2, 3]];
+    if thorough { b.extend(vec![vec![3; 7], vec![2, 2, 2, 3, 3, 2, 2, 2], vec![2; 11]]); }
+    for s in &b { emit_big(s, out); }
+}
+
+/// huge shapes (16 384 .. 140 000 elements; one axis above 65 536; extents that are not multiples of 32).  The C02 model is
+/// linear in the rank for positions / coordinates and linear in the position for element reads, so the MODEL answers these
+/// cases directly (no native oracle is needed); the positions are a sample: the first and last 40, every multiple of
+/// 2^12 and of the row sizes +-1, and seeded random ones
+fn gen_huge(thorough: bool, rng: &mut Rng, out: &mut dyn FnMut(String)) {
+    let mut sh = huge_shapes();
+    sh.extend(vec![vec![65537], vec![3, 65537], vec![65537, 2], vec![2, 2, 2, 2, 2, 2, 2, 2, 2, 2, 2, 2, 2, 2], vec![257, 257], vec![4, 181, 181]]);
+    if thorough { sh.extend(vec![vec![140001], vec![7, 131, 151], vec![1, 66000, 2, 1], vec![3, 5, 7, 11, 13, 2]]); }
+    for s in &sh {
+        let a = tag(s);
+        let n: usize = s.iter().product();
+        let mut pos: Vec<usize> = (0..40).chain(n - 40..n + 2).collect();
+        let mut step = 4096; while step < n { for d in [step - 1, step, step + 1] { pos.push(d); } step += 4096; }
+        let mut stride = 1usize;
+        for &d in s.iter().rev() {
+            stride *= d;
+            if stride > 1 && stride < n { for k in [1, 2, 3, n / stride / 2, n / stride - 1] { if k >= 1 && k * stride <= n { pos.push(k * stride - 1); pos.push(k * stride); } } }
+        }
+        for _ in 0..(if thorough { 1500 } else { 250 }) { pos.push(rng.below(n)); }
+        pos.retain(|&p| p < n + 2); pos.sort(); pos.dedup();
+        for &i in &pos {
+            out(format!("index_to_coord {a} {i}"));
+            out(format!("op_index {a} {i}"));
+            if i < n {
+                // the coordinate vector of the position (plain div / mod, used as an INPUT only; the model answers)
+                let mut c = vec![0; s.len()]; let mut r = i;
+                for k in (0..s.len()).rev() { c[k] = r % s[k]; r /= s[k]; }
+                let t = show_list(&c);
+                out(format!("index_at {a} {t}")); out(format!("at {a} {t}")); out(format!("op_index_coords {a} {t}"));
+                if i % 7 == 0 { let k = i % s.len(); let mut b = c.clone(); b[k] = s[k]; out(format!("index_at {a} {}", show_list(&b))); out(format!("index_at {a} {t}")); }
+            }
+        }
+        emit_malformed(s, out);
+        let d0 = s[0];
+        for (st, en) in [(0, 1), (1, 2), (d0 - 1, d0), (1, 3), (0, 3), (3, 1), (n - 1, n), (n, n + 1), (d0, d0 + 1), (n - 3, n), (7, 9)] { if slice_affordable(s, st, en) { out(format!("slice {a} {st} {en}")); } }
+        if indices_affordable(s) { for l in [vec![0], vec![d0 - 1], vec![d0 - 1, 0], vec![d0], vec![1, 1]] { out(format!("indices_at {a} {}", show_list(&l))); } }
+    }
 }
 
 /// extension: `slice(range)` and `indices_at(indices)`; answers are whole arrays (`shape:elems`)
@@ -234,6 +517,7 @@ fn run<V>(f: impl FnOnce() -> Result<V, ArrayError>) -> Out<V> {
     match catch_unwind(AssertUnwindSafe(f)) { Ok(Ok(v)) => Out::Ok(v), Ok(Err(e)) => Out::Err(err_name(&e)), Err(_) => Out::Panic }
 }
 
+#[derive(Clone)]
 enum Call { IndexAt(Vec<usize>), ToCoord(usize), At(Vec<usize>), OpIdx(usize), OpCoords(Vec<usize>), Slice(usize, usize), IndicesAt(Vec<usize>) }
 #[derive(Clone, Debug)]
 enum Ans<T> { Pos(usize), Coord(Vec<usize>), Elem(T), Arr { shape: Vec<usize>, elems: Vec<T>, consistent: bool } }
@@ -331,6 +615,11 @@ fn variant<T: Img + 'static>(key: &str, c: &Call, base: &Out<Ans<i64>>, plain: b
     None
 }
 
+/// A-B-A: the previous case (array, call, its answer).  After the first call of the current case B the previous case A
+/// is run again and must give the answer it gave before B — an operation whose answer depends on the call before it fails here.
+struct Prev { line: String, arr: Rc<Array<i64>>, call: Call, ans: Out<Ans<i64>> }
+thread_local! { static PREV: RefCell<Option<Prev>> = const { RefCell::new(None) }; }
+
 fn exec(op: &str, args: &[&str], expected: &str) -> Option<Verdict> {
     let key = args[0];
     let a = cached::<i64>(key);
@@ -347,10 +636,18 @@ fn exec(op: &str, args: &[&str], expected: &str) -> Option<Verdict> {
     // canonical answer: plain receiver, i64 tags
     let base = call(&*a, &c, false)?;
     let mut observed = show_out(&base);
+    // A-B-A: re-run the previous case right after the first call of this one
+    let aba = PREV.with(|p| {
+        let p = p.borrow();
+        let p = p.as_ref()?;
+        let again = call(&*p.arr, &p.call, false)?;
+        if agree(&p.ans, &again) { None } else { Some(format!("ABA-DIVERGENCE the previous case `{}` answered {} before this call and {} after it", p.line, truncate(&show_out(&p.ans), 120), truncate(&show_out(&again), 120))) }
+    });
+    PREV.with(|p| *p.borrow_mut() = Some(Prev { line: format!("{op} {}", args.join(" ")), arr: a.clone(), call: c.clone(), ans: base.clone() }));
     // robustness streams: the same call a second time, the call on Ok(array), and the element-type sweep.
     // Arrays of up to 300 elements: every type on both receivers; larger ones: i64 / u8 on both, i8 / bool / f64 plain.
     let small = a.len().unwrap() <= 300;
-    let d = variant::<i64>(key, &c, &base, true, true)
+    let d = aba.or_else(|| variant::<i64>(key, &c, &base, true, true))
         .or_else(|| variant::<u8>(key, &c, &base, true, true))
         .or_else(|| variant::<f64>(key, &c, &base, true, small))
         .or_else(|| variant::<i8>(key, &c, &base, true, small))
